@@ -1317,13 +1317,10 @@ def _decorate_with_invariants(
                     instance = _find_self(
                         param_names=param_names, args=args, kwargs=kwargs
                     )
-                except KeyError as err:
-                    raise KeyError(
-                        (
-                            "The parameter 'self' could not be found in the call to function {!r}: "
-                            "the param names were {!r}, the args were {!r} and kwargs were {!r}"
-                        ).format(func, param_names, args, kwargs)
-                    ) from err
+                except KeyError:
+                    # There is no instance in the call at all (*e.g.*, a plain function which is kept in the class
+                    # body and called through the class without arguments). It is up to Python to judge the call.
+                    return await func(*args, **kwargs)
 
                 invariants = getattr(
                     instance.__class__,
@@ -1371,13 +1368,10 @@ def _decorate_with_invariants(
                     instance = _find_self(
                         param_names=param_names, args=args, kwargs=kwargs
                     )
-                except KeyError as err:
-                    raise KeyError(
-                        (
-                            "The parameter 'self' could not be found in the call to function {!r}: "
-                            "the param names were {!r}, the args were {!r} and kwargs were {!r}"
-                        ).format(func, param_names, args, kwargs)
-                    ) from err
+                except KeyError:
+                    # There is no instance in the call at all (*e.g.*, a plain function which is kept in the class
+                    # body and called through the class without arguments). It is up to Python to judge the call.
+                    return func(*args, **kwargs)
 
                 invariants = getattr(
                     instance.__class__,
